@@ -79,7 +79,11 @@ class Gen:
             inner = (",\n" + ind + "    ").join(ps)
             return "%s%s %s(\n%s    %s%s\n%s)%s:" % (ind, kw, name, ind, inner, trail, ind, r)
         sp = rnd.choice(["", "", " "])
-        return "%s%s %s(%s%s)%s:" % (ind, kw, name, sp, ", ".join(ps), r)
+        gap = " "
+        if rnd.random() < 0.06:
+            gap = rnd.choice(["\t", "  ", " \t"])       # a tab (or more blanks) behind the keyword: valid Python
+            self.tags.append("sig:gap-behind-def")
+        return "%s%s%s%s(%s%s)%s:" % (ind, kw, gap, name, sp, ", ".join(ps), r)
 
     def body_stmts(self, ind, names, gen_kind):
         """statements of a test / fixture body"""
